@@ -80,6 +80,12 @@ def destructure_family(tier):
     shapes["tuple-struct/type-form"] = ("pub struct S<T>(pub T, pub String);\n", "S<u32>, (a, b)", "S<u32>", "")
     shapes["tuple-struct/turbofish"] = ("pub struct S<T>(pub T, pub String);\n", "S::<u32>, (a, b)", "S<u32>", "")
     shapes["tuple-struct/self-path"] = ("pub struct S(pub u32, pub String);\n", "self::S (a, b)", "S", "")
+    # one-element aggregates: `(a,)` / `S(a)` / `S {a}` / `[a]` take their own paths through the macro's repetitions (`$(x),*` vs `$(x,)*`)
+    shapes["tuple/arity1"] = ("", "(a,)", "(String,)", "")
+    shapes["tuple-struct/arity1"] = ("pub struct S(pub String);\n", "S (a)", "S", "")
+    shapes["braced/arity1"] = ("pub struct S { pub a: String }\n", "S {a}", "S", "")
+    shapes["array/arity1"] = ("", "[a]", "[String; 1]", "")
+    shapes["tuple/arity3"] = ("", "(a, b, c)", "(u32, String, u8)", "")
     for shape, (defs, pat, ty, val) in shapes.items():
         for annot in (False, True):
             for ref in ("&", "&mut "):
@@ -96,6 +102,16 @@ def destructure_family(tier):
         ("tuple-more", "", "(u32, String)", "(a, b, c)", "(a, b)", [dict(code="E0308")]),
         ("array-fewer", "", "[String; 3]", "[a, b]", "[a, b, c]", [dict(code="E0527"), dict(code="E0308")]),
         ("array-more", "", "[String; 2]", "[a, b, c]", "[a, b]", [dict(code="E0527"), dict(code="E0308")]),
+    ]
+    counts += [
+        # the annotation names a longer tuple than the pattern (the value is one: elements would leak)
+        ("tuple1-annotated-longer", "", "(String, u32)", "(a,): (String, u32)", "(a, b): (String, u32)", [dict(code="E0308")]),
+        ("tuple2-annotated-longer", "", "(String, u32, u8)", "(a, b): (String, u32, u8)", "(a, b, c): (String, u32, u8)", [dict(code="E0308")]),
+        ("tuple1-fewer", "", "(String, u32)", "(a,)", "(a, b)", [dict(code="E0308")]),
+        ("array1-fewer", "", "[String; 2]", "[a]", "[a, b]", [dict(code="E0527"), dict(code="E0308")]),
+        ("tuple-struct1-fewer", "pub struct S(pub u32, pub String);\n", "S", "S (a,)", "S (a, b)", [dict(code="E0023"), dict(msg="pattern requires `..`"), dict(code="E0027"), dict(code="E0308")]),
+        # a tuple pattern with an annotation that is not a tuple at all (a tuple struct: its Drop impl / privacy would be bypassed)
+        ("tuple1-annotated-struct", "pub struct S(pub String);\n", "S", "(a,): S", "S (a)", [dict(code="E0308")]),
     ]
     for shape, defs, ty, bad, good, exp in counts:
         out.append(Prog("field-count", shape, defs + "pub fn f(v: %s) { konst::destructure!{%s = v} }\n" % (ty, bad),
